@@ -595,6 +595,64 @@ func runAsm(o opts) error {
 			Desc: map[string]interface{}{"src": src, "text": text, "written": fmt.Sprintf("%x", written), "outcome": how}})
 	}
 
+	// asm.MenuProcessor used directly (asm/menu.go): Add + ToLines with selectors of every shape —
+	// nothing the caller wrote may be altered on this path (asm.Parse normalises numbers BEFORE it calls Add)
+	addMenu := func(kind string, adds [][4]string) {
+		var out []byte
+		var err error
+		pk, _ := hx.Recover(func() {
+			mp := asm.NewMenuProcessor()
+			for _, a := range adds {
+				if err = mp.Add(a[0], a[1], a[2], a[3]); err != nil {
+					return
+				}
+			}
+			out = mp.ToLines()
+		})
+		res := ""
+		switch {
+		case pk:
+			res = hx.Panic()
+		case err != nil:
+			res = hx.Err("EGen")
+		default:
+			res = hx.Ok(hx.B(out))
+		}
+		items := make([]string, len(adds))
+		for i, a := range adds {
+			items[i] = fmt.Sprintf("(%s, %s, %s, %s)", hx.S(a[0]), hx.S(a[1]), hx.S(a[2]), hx.S(a[3]))
+		}
+		w.Add(hx.Case{Kind: kind, Term: fmt.Sprintf("AMenu %s %s", hx.List(items), res), Key: "menu:" + strings.Join(items, ";"),
+			Desc: map[string]interface{}{"adds": adds, "bytes": fmt.Sprintf("%x", out)}})
+	}
+	menuSels := []string{"0", "1", "00", "01", "007", "010", "0000", "42", "4294967296", "a", "b2", "1a", "*", "x_1", "99999999999"}
+	menuCases := func(n int, seedTag string) {
+		addMenu("menu-corpus", [][4]string{{"DOWN", "00", "to_foo", "foo"}, {"UP", "01", "back", ""}, {"NEXT", "007", "fwd", ""}, {"PREVIOUS", "010", "prev", ""}})
+		addMenu("menu-corpus", [][4]string{{"UP", "0", "back", ""}})
+		addMenu("menu-corpus", [][4]string{{"UP", "0", "back", "foo"}})
+		addMenu("menu-corpus", [][4]string{{"SIDEWAYS", "0", "back", ""}})
+		addMenu("menu-corpus", [][4]string{})
+		for c := 0; c < n; c++ {
+			r := hx.Rng(o.seed, seedTag, c)
+			var adds [][4]string
+			for k := 1 + r.Intn(4); k > 0; k-- {
+				code := []string{"DOWN", "UP", "NEXT", "PREVIOUS"}[r.Intn(4)]
+				tgt := ""
+				if code == "DOWN" {
+					tgt = []string{"foo", "bar", "_", "^"}[r.Intn(4)]
+				}
+				adds = append(adds, [4]string{code, menuSels[r.Intn(len(menuSels))], []string{"back", "to_foo", "fwd", "lbl1"}[r.Intn(4)], tgt})
+			}
+			addMenu("menu", adds)
+		}
+	}
+	if o.prop == "C14" {
+		w.Viol = "asm_violations_c14"
+		menuCases(o.n, "asm-menu")
+		return w.Flush()
+	}
+	menuCases(o.n/10, "asm-menu")
+
 	// corpus: one per finding class, then the examples of instructions.texi
 	long256 := strings.Repeat("a", 256)
 	corpus := [][]asmLine{
